@@ -1,3 +1,3 @@
--- Model driver for property C14 (stub until the property's model exists).
-import GojaModel.Base.Proto
-def main : IO Unit := GojaModel.Proto.lineMap (fun _ => "unimplemented")
+-- Model driver for property C14.
+import GojaModel.C14.Driver
+def main : IO Unit := GojaModel.C14.Driver.main
